@@ -166,7 +166,10 @@ def jobs_for(scripts, offset, per_script):
             zc, rel, via = CONFIGS[cidx]
             if via in ("query", "aquery") and s["kind"] == "usetcp" and s["fault"]["k"] == "none" and i % 2 == 0:
                 via += "-tryfirst"          # UDPMode.TRY_FIRST: the library retries over TCP after UseTCP
-            jobs.append((s, zc, rel, via, "s%d.%s.%s.%s" % (i, zc, "rel" if rel else "abs", via)))
+            # query paths over TCP: the connection ends with a clean EOF on the message boundary, after one octet of
+            # the next length prefix, or in the middle of the next message (only seen if the transfer is not done by then)
+            tail = ("none", "len", "body", "none")[(i // NC + cidx) % 4] if via in ("query", "aquery") and not s["udp"] else "none"
+            jobs.append((s, zc, rel, via, "s%d.%s.%s.%s%s" % (i, zc, "rel" if rel else "abs", via, "" if tail == "none" else "+" + tail), tail))
     return jobs
 
 
@@ -207,7 +210,7 @@ def replay_and_judge(ctx, jobs, parallel=True):
                           tr.get("req"), "udp" if tr.get("udp") else "tcp", tr.get("kind"), tr.get("fault"), tr.get("zclass"),
                           tr.get("rel"), tr.get("via"), json.dumps([m["rrs"] for m in tr.get("msgs", [])])[:400], line, json.dumps(e)[:300]),
                       {"script": job[0] if job else None, "zclass": tr.get("zclass"), "rel": tr.get("rel"), "via": tr.get("via"),
-                       "line": line, "trace": tr if len(ctx.violations) < 200 else {"tid": tr.get("tid")}})
+                       "tail": tr.get("tail", "none"), "line": line, "trace": tr if len(ctx.violations) < 200 else {"tid": tr.get("tid")}})
 
 
 def run(ctx):
@@ -222,7 +225,8 @@ def run(ctx):
                         "the driver stops reading when the transfer reports done or raises, as dns.query._inbound_xfr does"]
     if ctx.replay_case:
         case = ctx.replay_case["case"]
-        replay_and_judge(ctx, [(case["script"], case["zclass"], case["rel"], case["via"], "replay")], parallel=False)
+        replay_and_judge(ctx, [(case["script"], case["zclass"], case["rel"], case["via"], "replay", case.get("tail", "none"))],
+                         parallel=False)
         return
     # ---------------------------------------------------------------- 1. the specification itself
     if quick:
@@ -386,7 +390,14 @@ def _corruptions():
         m[-1]["st"][2] = not m[-1]["st"][2]
         return True
 
-    return [("exit.zone: one record removed", drop_zone_record), ("exit.zone: TTL + 1", bump_ttl),
+    def raised_cleared(tr):
+        if not tr.get("raised"):
+            return False
+        tr["raised"] = ""
+        return True
+
+    return [("inbound_xfr's exception dropped (raised = '')", raised_cleared),
+            ("exit.zone: one record removed", drop_zone_record), ("exit.zone: TTL + 1", bump_ttl),
             ("exit.zone: SOA serial + 1", bump_serial), ("msg.ret flipped", flip_ret), ("exit.open = 1", open_txn),
             ("refused message logged as accepted", err_to_ok), ("accepted message of a valid stream logged as refused", ok_to_err),
             ("msg.st.delete_mode flipped (strict pass)", flip_delete_mode)]
